@@ -2,3 +2,8 @@
 import AJ.Props.C11
 import AJ.Props.C11Full
 import AJ.Props.C11Mp
+import AJ.Props.C11Mem
+import AJ.Props.C11Doc
+import AJ.Props.C11Slot
+import AJ.Props.C11MpSlot
+import AJ.Props.C11MpDoc
